@@ -169,14 +169,20 @@ def run_law(rs, ctx, j):
         c = float(gen.pick(rs, [2.0, 0.5, 8.0, -4.0]))
         r2 = [c * v for v in data["r"]]
     else:
-        c = float(gen.pick(rs, [1.0, -2.5, 0.125, 16.0]))
+        c = float(gen.pick(rs, [1.0, -2.5, 0.125, 16.0, -740.0, -2000.0, 1000.0, -1.0e6]))  # incl. shifts far below -700 * tau
         r2 = [v + c for v in data["r"]]
     d2 = dict(data, r=r2)
     A, B = gen.build(cfg), gen.build(cfg)
+    wit = {"cfg": cfg, "data": data, "constant": c, "chunk_bounds": bounds}
     for m, dset in ((A, data), (B, d2)):
         for i in range(len(bounds) - 1):
-            gen.apply_op(m, dict(gen.slice_batch(dset, bounds[i], bounds[i + 1]), op="fit" if i == 0 else "partial_fit"))
-    wit = {"cfg": cfg, "data": data, "constant": c, "chunk_bounds": bounds}
+            try:
+                gen.apply_op(m, dict(gen.slice_batch(dset, bounds[i], bounds[i + 1]), op="fit" if i == 0 else "partial_fit"))
+            except Exception as ex:  # noqa: BLE001
+                ctx.violation("%s: training on rewards %s raised %s: %s" % (
+                    kind, "as given" if dset is data else ("x %g" % c if kind == "lingreedy" else "+ %g" % c), type(ex).__name__, str(ex)[:80]),
+                    wit, kind="law_raised|" + kind)
+                return
     if kind == "sm":
         ea, eb = A._imp.arm_to_expectation, B._imp.arm_to_expectation
         want = dict(ea)
@@ -194,6 +200,10 @@ def run_law(rs, ctx, j):
             va, vb = float(ra[a]), float(rb[a])
             want = va if kind == "sm" else (va * c if kind == "lingreedy" else va + c)
             tol = 1e-9 * (1 + abs(want)) if kind == "lingreedy" else 1e-12 * (1 + abs(want))
+            if kind == "sm":
+                # a shifted mean is the mean plus the constant only up to the rounding of numbers of the constant's size;
+                # Softmax divides that rounding error by tau
+                tol += 16 * float(np.spacing(abs(c) + 16.0)) / float(cfg["lp"]["tau"])
             if abs(vb - want) > tol:
                 ctx.violation("%s: rewards %s: arm %r expectation %r, the law predicts %r (original %r)" % (
                     kind, "x %g" % c if kind == "lingreedy" else "+ %g" % c, a, vb, want, va), wit, kind="law|" + kind)
